@@ -431,7 +431,7 @@ func checkScript(s script, impl []string) []hx.Failure {
 	curOp := op{}
 	curBeyond := false
 	prevTaint := ""
-	// Attribution of a failure to an input class.  The four input classes of the known
+	// Attribution of a failure to an input class.  The input classes of the known
 	// findings get one fixed oracle name each; everything else is classified by the last
 	// mutating operation and the equation that failed.
 	fail := func(step int, oracle, want, got string) {
@@ -442,10 +442,6 @@ func checkScript(s script, impl []string) []hx.Failure {
 			taint = prevTaint
 		}
 		switch {
-		case strings.HasPrefix(lastMut, "getline-field") || taint == "getline-field":
-			class, oracle = "getline-field", "getline $i assigns field i"
-		case curBeyond && strings.HasPrefix(oracle, "out-of-range"):
-			class, oracle = "setfield-idx-beyond-int64", "a field index above maxFieldIndex is rejected with an error"
 		case taint == "record-fs-space-nonblank-whitespace":
 			class, oracle = taint, "FS=\" \" separates on runs of blanks (space, tab, newline) only"
 		case taint == "setnf-nonintegral-or-string" || (sp.nfTainted && (nfOnly || strings.HasPrefix(lastMut, "modnf"))):
@@ -453,7 +449,7 @@ func checkScript(s script, impl []string) []hx.Failure {
 		}
 		fails = append(fails, hx.Failure{Class: class, Oracle: oracle, Detail: detail(s, impl, step, want, got)})
 	}
-	_ = curOp
+	_, _ = curOp, curBeyond
 	for step, o := range s.Ops {
 		// what the implementation printed at this step
 		got := ""
@@ -510,9 +506,6 @@ func checkScript(s script, impl []string) []hx.Failure {
 				sp.known, errMaybe = false, true
 			} else {
 				wantErr = sp.set(n, o.T)
-			}
-			if o.K == "L" && !(ok && n == 0) && sp.taint == "" {
-				sp.taint = "getline-field" // until the next record: attribution only
 			}
 		case "M":
 			n, ok, _ := sp.evalIdx(o.I)
